@@ -10,6 +10,7 @@ import (
 	"fmt"
 	"io"
 	"math/rand"
+	"testing/iotest"
 
 	"github.com/Eyevinn/mp4ff/bits"
 )
@@ -224,6 +225,34 @@ func writePieces(write func(uint, int), code []int) {
 	}
 }
 
+type readerSource struct {
+	name, suffix string
+	r            io.Reader
+}
+
+// zeroNilReader returns (0, nil) on every third call before delivering data: allowed by io.Reader ("discouraged", not forbidden)
+type zeroNilReader struct {
+	r io.Reader
+	n int
+}
+
+func (z *zeroNilReader) Read(p []byte) (int, error) {
+	z.n++
+	if z.n%3 == 0 {
+		return 0, nil
+	}
+	return z.r.Read(p)
+}
+
+func readerSources(b []byte) []readerSource {
+	return []readerSource{
+		{"bytes.Reader", "", bytes.NewReader(b)},
+		{"data together with io.EOF", "/data-with-eof", iotest.DataErrReader(bytes.NewReader(b))},
+		{"one byte per call", "/one-byte-reads", iotest.OneByteReader(bytes.NewReader(b))},
+		{"(0, nil) now and then", "/zero-nil-reads", &zeroNilReader{r: bytes.NewReader(b)}},
+	}
+}
+
 func c13Ops(args []string) error {
 	rep := newReport()
 	err := readLines(argValue(args, "-in", "-"), func(line []byte) error {
@@ -299,9 +328,10 @@ func c13Ops(args []string) error {
 					cs(J{"expected": bytes2ints(want), "observed": bytes2ints(buf.Bytes())}))
 			}
 		}
-		// --- bits.Reader over the flushed stream
-		{
-			rd := bits.NewReader(bytes.NewReader(flush))
+		// --- bits.Reader over the flushed stream, fed by sources with every behaviour the io.Reader contract allows
+		// (all at once; data delivered together with io.EOF; one byte per call; an occasional (0, nil) return)
+		for _, src := range readerSources(flush) {
+			rd := bits.NewReader(src.r)
 			for i, o := range c.Ops {
 				bad := false
 				switch o.K {
@@ -323,7 +353,7 @@ func c13Ops(args []string) error {
 					}
 				}
 				if bad || rd.AccError() != nil {
-					rep.Violation("reader/value-"+o.K, "bits.Reader returned a value different from the one written", cs(J{"i": i}))
+					rep.Violation("reader/value-"+o.K+src.suffix, "bits.Reader returned a value different from the one written", cs(J{"i": i, "source": src.name}))
 					break
 				}
 				if rd.NrBitsRead() != c.Ends[i] {
@@ -332,16 +362,24 @@ func c13Ops(args []string) error {
 				}
 			}
 		}
-		// --- bits.EBSPReader over the escaped stream (stuffed and rbsp endings)
-		for _, ending := range []string{"stuff", "rbsp"} {
+		// --- bits.EBSPReader over the escaped stream (stuffed and rbsp endings); the second round through a source
+		// that delivers its last bytes together with io.EOF
+		for ei, ending := range []string{"stuff", "rbsp", "stuff", "rbsp"} {
 			stream := flushEsc
 			if ending == "rbsp" {
 				stream = rbspEsc
 			}
-			rd := bits.NewEBSPReader(bytes.NewReader(stream))
+			var source io.Reader = bytes.NewReader(stream)
+			if ei >= 2 {
+				if len(c.Ops)%3 != 0 {
+					continue
+				}
+				source = iotest.DataErrReader(bytes.NewReader(stream))
+			}
+			rd := bits.NewEBSPReader(source)
 			okSoFar := true
 			for i, o := range c.Ops {
-				if ending == "rbsp" {
+				if ending == "rbsp" && ei < 2 { // MoreRbspData needs a ReadSeeker: only asked of the seekable source
 					more, err := rd.MoreRbspData()
 					if err != nil || !more {
 						rep.Violation("ebspreader/more-rbsp-data", "MoreRbspData is false although syntax elements remain",
@@ -384,7 +422,7 @@ func c13Ops(args []string) error {
 					}
 				}
 			}
-			if ending == "rbsp" && okSoFar {
+			if ending == "rbsp" && okSoFar && ei < 2 {
 				more, err := rd.MoreRbspData()
 				if err != nil || more {
 					rep.Violation("ebspreader/more-rbsp-data", "MoreRbspData is true at the rbsp trailing bits",
